@@ -19,7 +19,7 @@ from sim import workload as W
 from sim.world import Session, classify, exc_signature, reference_world
 
 PROPERTY = "C15"
-SESSIONS = {"quick": 120, "thorough": 3000}
+SESSIONS = {"quick": 120, "thorough": 100}
 BUDGET_S = {"quick": 110, "thorough": 1500}
 CAP_S = {"quick": 240, "thorough": 480}
 KINDS = ("result", "parts", "parts", "optimized_name", "divisions", "npartitions", "len")
